@@ -5,8 +5,8 @@ here="$(cd "$(dirname "$0")" && pwd)"
 repo="${1:-/repo}"
 out="${2:-$here/../../coq}"
 export GOFLAGS=-mod=mod GOPROXY=off GOSUMDB=off GOTOOLCHAIN=local
-mkdir -p "$here/../../work/c15"
-bin="$here/../../work/c15/authmounts"
+mkdir -p "$here/../../work/c15d"
+bin="$here/../../work/c15d/authmounts"
 if [ ! -x "$bin" ] || [ "$here/main.go" -nt "$bin" ]; then
   (cd "$here" && go build -o "$bin" .)
 fi
